@@ -42,12 +42,24 @@ def parse_kv(line):
     return dict(m.groups() for m in re.finditer(r"(\w+)=(\S+)", line))
 
 
+def run_driver(drv, args, inp, timeout=300):
+    """The driver executable is shared with other checks and may be re-linked while we run: retry on OS errors."""
+    last = None
+    for attempt in range(6):
+        try:
+            return vlib.run([drv] + args, inp=inp, timeout=timeout)
+        except OSError as ex:   # ETXTBSY / ENOENT during a concurrent `lake build driver`
+            last = ex
+            time.sleep(2 + attempt)
+    raise last
+
+
 def expected_pfor(drv, queries):
     """queries: list of (b, e, tc, threads) -> list of non-empty ranges per query, from the Lean model."""
     if not queries:
         return []
     inp = "".join("%d %d %d %d\n" % q for q in queries)
-    rc, out, err = vlib.run([drv, "dispatch", "pfor"], inp=inp, timeout=60)
+    rc, out, err = run_driver(drv, ["dispatch", "pfor"], inp, timeout=60)
     res = []
     for line in out.splitlines():
         if not line.startswith("pfor "):
@@ -185,7 +197,7 @@ def run_script(exe, drv, script, timeout=90, env=None):
         for d, c in sorted(late.items()):
             r.kinds.append("teardown-start")
             r.fail.append("dispatcher %s: %d task(s) were started after the destructor had set terminate and dropped the pending work" % (d, c))
-        rc2, out2, err2 = vlib.run([drv, "dispatch", "trace"], inp="\n".join(tlines) + "\n", timeout=300)
+        rc2, out2, err2 = run_driver(drv, ["dispatch", "trace"], "\n".join(tlines) + "\n")
         seen = False
         for l in out2.splitlines():
             w = l.split()
@@ -459,7 +471,7 @@ def run(ctx):
         for threads in (0, 1, 3):
             scripts.append(("pfor threads=%d" % threads, gen_pfor_block(threads, [0, 1, 2, 5, 9], [0, 1, 2, 4, 11], rng)))
     # 3. random scripts
-    nrand = 30000 if ctx.thorough else 1500
+    nrand = 60000 if ctx.thorough else 4000
     for i in range(nrand):
         scripts.append(("random-%d" % i, gen_script(rng, wchoice, big=ctx.thorough and i % 4 == 0)))
 
@@ -504,12 +516,13 @@ def run(ctx):
             floated_reads=floats, event_histogram=dict(sorted(hist_events.items())),
             op_histogram=dict(sorted(hist_ops.items())), worker_counts_seen=sorted(workers_seen),
             exhaustive=("parallelFor: sizes 0..15 x explicit task counts 0..14 x workers {0,1,2,3,4,7}" if ctx.thorough else None),
-            partial_theorems=["wait_returns_partial (needs: weak fairness of the OS scheduler; finitely many spurious wake-ups)"],
+            partial_theorems=["liveness: wait_returns is proved for the MODEL under WeaklyFair + FinitelyManyWakes; that the OS scheduler "
+                              "is weakly fair and condition variables wake spuriously only finitely often is assumed, not proved"],
             trusted_base=["Lean kernel; statement of the theorems in Props/C08.lean",
                           "Model/Dispatcher.lean follows dispatch.cpp: validated by trace acceptance on the runs made here, not proved",
                           "harness/dispatch_driver.cpp, the hook points in dispatch.cpp, Driver/Dispatch.lean (event -> action elaboration, 3 documented floats)",
                           "OS scheduler explores only some interleavings: the tie is a test, the theorems cover all schedules of the model"])
     ctx.assume("critical sections under Data::mutex are atomic; std::mutex / std::condition_variable / std::atomic behave as specified",
                "one external thread drives a dispatcher at a time; tasks do not submit to or wait on their own dispatcher",
-               "liveness ('wait always returns') is proved under fairness assumptions only (wait_returns_partial); real scheduler fairness is outside the model")
+               "liveness ('wait always returns') is proved for the model under weak fairness and finitely many spurious wake-ups (wait_returns); real scheduler fairness is outside the model")
     ctx.level = "proof (safety); partial (liveness under fairness)"
